@@ -681,6 +681,10 @@ def register_core(M):
             cell, path = ex.deref(a[0])
             cell, path = ex.deref(ex.read_path(cell, path), info['self_ty'])
             return Ref(cell, path)
+        if isinstance(v, Ref):
+            tgt = ex.read_path(v.cell, v.path)
+            if isinstance(tgt, Obj) and tgt.kind in ('vec', 'str', 'symstr'):
+                return v      # generic AsRef<[T]> / AsRef<str> on a vector / string: the same object
         return M.uninterpreted(ex, info, a, dty)
 
     @reg('Pin::new_unchecked', 'Pin::new', 'Into::into', 'From::from', 'IntoFuture::into_future',
@@ -923,10 +927,47 @@ def _opaque_eq(self, ex, ty, x, y):
     return b
 
 
+def _deep_eq(self, ex, a, b):
+    """structural equality of two values as a z3 Bool (pointer identity for Arc / Source / references)"""
+    a, b = ex.materialize(a), ex.materialize(b)
+    if a is b:
+        return z3.BoolVal(True)
+    if z3.is_expr(a) and z3.is_expr(b):
+        return a == b
+    if isinstance(a, Ref) and isinstance(b, Ref):
+        if a.pid is not None or b.pid is not None:
+            return self.pid(ex, a) == self.pid(ex, b)
+        return z3.BoolVal(a.cell is b.cell and a.path == b.path)
+    if isinstance(a, Adt) and isinstance(b, Adt):
+        c = []
+        if a.discr is not None or b.discr is not None:
+            c.append(self.discr(ex, a) == self.discr(ex, b))
+        for k in sorted(set(a.fields) | set(b.fields), key=repr):
+            fa = a.fields.get(k)
+            fb = b.fields.get(k)
+            if fa is None or fb is None:
+                if (a.name is None and fa is None) or (b.name is None and fb is None):
+                    continue        # field of an inactive variant
+                fa = fa if fa is not None else ex.field_of(a, k[0], k[1], '?')
+                fb = fb if fb is not None else ex.field_of(b, k[0], k[1], '?')
+            e = self.deep_eq(ex, fa, fb)
+            if k[0] is not None and a.discr is not None:
+                e = z3.Implies(self.discr(ex, a) == bv(k[0] if isinstance(k[0], int) else 0), e)
+            c.append(e)
+        return z3.And(*c) if c else z3.BoolVal(True)
+    if isinstance(a, Lazy) and isinstance(b, Lazy):
+        if a.name == b.name:
+            return z3.BoolVal(True)
+    if a is UNIT and b is UNIT:
+        return z3.BoolVal(True)
+    raise Inconclusive('deep_eq of %r and %r' % (a, b))
+
+
 def _into_iter(self, ex, info, v, dty):
     raise Inconclusive('into_iter not modelled for %r' % (v,))
 
 
 Models.default_value = _default_value
+Models.deep_eq = _deep_eq
 Models.opaque_eq = _opaque_eq
 Models.into_iter = _into_iter
